@@ -133,6 +133,8 @@ pub enum AcceptPolicy {
     Ignore,
     /// Keep the `Incoming` in `Node::held` until the check accepts it
     Hold,
+    /// `retry()` unless the address is validated, then hold
+    RetryHold,
 }
 
 /// What an application does with a connection. `drive` is called after every settle round
@@ -630,6 +632,15 @@ impl<A: App> World<A> {
         match policy {
             AcceptPolicy::Hold => {
                 self.nodes[node].held.push(inc);
+                None
+            }
+            AcceptPolicy::RetryHold if inc.remote_address_validated() || !inc.may_retry() => {
+                self.nodes[node].held.push(inc);
+                None
+            }
+            AcceptPolicy::RetryHold => {
+                let t = self.nodes[node].ep.retry(inc, &mut buf).expect("may_retry checked");
+                self.emit_transmit(node, None, None, &t, &buf, 0, None);
                 None
             }
             AcceptPolicy::Refuse => {
